@@ -96,7 +96,8 @@ pub fn random_u256() -> U256 {
     loop {
         rng.fill_bytes(&mut buf[..]);
         ret = u256_from_be_bytes(&buf);
-        if u256_cmp(&ret, &SM2_P_MINUS_ONE) < 0 && ret != [0, 0, 0, 0] {
+        // secret scalars live in [1, n-1] (n the group order, not the field prime)
+        if u256_cmp(&ret, &crate::fields::fn64::SM2_N) < 0 && ret != [0, 0, 0, 0] {
             break;
         }
     }
